@@ -5,12 +5,13 @@ package utils
 
 import (
 	"fmt"
-	"math"
+	"math/bits"
 	"net"
 	"net/url"
 	"os"
 	"path"
 	"strconv"
+	"strings"
 	"time"
 
 	"github.com/ava-labs/avalanchego/ids"
@@ -65,16 +66,48 @@ func GetPort(uri string) (string, error) {
 	return purl.Port(), err
 }
 
-func FormatBalance(bal uint64) string {
-	return strconv.FormatFloat(float64(bal)/math.Pow10(int(consts.Decimals)), 'f', int(consts.Decimals), 64)
+// balanceUnit is the number of base units in one whole token (10^Decimals).
+func balanceUnit() uint64 {
+	unit := uint64(1)
+	for i := 0; i < consts.Decimals; i++ {
+		unit *= 10
+	}
+	return unit
 }
 
+// FormatBalance renders [bal] base units as a decimal amount of whole tokens
+// with exactly [consts.Decimals] fractional digits.
+func FormatBalance(bal uint64) string {
+	unit := balanceUnit()
+	return fmt.Sprintf("%d.%0*d", bal/unit, consts.Decimals, bal%unit)
+}
+
+// ParseBalance converts a decimal amount of whole tokens with at most
+// [consts.Decimals] fractional digits into base units. The conversion is done
+// with integer arithmetic only, so it is exact over the whole uint64 range.
 func ParseBalance(bal string) (uint64, error) {
-	f, err := strconv.ParseFloat(bal, 64)
+	whole, frac, _ := strings.Cut(bal, ".")
+	if len(frac) > consts.Decimals {
+		return 0, fmt.Errorf("%w: %q has more than %d decimals", strconv.ErrSyntax, bal, consts.Decimals)
+	}
+	wholeUnits, err := strconv.ParseUint(whole, 10, 64)
 	if err != nil {
 		return 0, err
 	}
-	return uint64(f * math.Pow10(int(consts.Decimals))), nil
+	fracUnits := uint64(0)
+	if len(frac) > 0 {
+		// Right-pad the fraction to [consts.Decimals] digits to express it in base units.
+		fracUnits, err = strconv.ParseUint(frac+strings.Repeat("0", consts.Decimals-len(frac)), 10, 64)
+		if err != nil {
+			return 0, err
+		}
+	}
+	hi, lo := bits.Mul64(wholeUnits, balanceUnit())
+	sum, carry := bits.Add64(lo, fracUnits, 0)
+	if hi != 0 || carry != 0 {
+		return 0, fmt.Errorf("%w: %q overflows uint64", strconv.ErrRange, bal)
+	}
+	return sum, nil
 }
 
 func Repeat[T any](v T, n int) []T {
